@@ -165,3 +165,58 @@ def joint_states(plan, run) -> list[str]:
             )
         )
     return out
+
+
+def run_fidelity(prop: str, seed: int) -> dict:
+    """Execute one plan twice - in-process and with real lifetimes (fresh interpreters, real
+    SIGKILL) - and compare the observable histories; the real run is also judged by the oracles."""
+    import json as _json
+
+    from . import lifetime as L
+
+    t0 = time.time()
+    root = scratch_root()
+    res = {"prop": prop, "seed": seed, "verdict": "pass", "violations": []}
+    try:
+        plan, ctl = build_plan(prop, seed, root)
+        res["plan"] = plan
+        if not ctl.ok or not plan["lifetimes"]:
+            res["verdict"] = "skipped"
+            return res
+        a = execute(plan, os.path.join(root, "inproc"))
+        b = L.run_real(plan, os.path.join(root, "real"))
+        va, vb = L.fidelity_view(a.hist), L.fidelity_view(b.hist)
+        ja, jb = _json.dumps(va, sort_keys=True, default=str), _json.dumps(vb, sort_keys=True, default=str)
+        res["real_kills"] = getattr(b, "real_kills", 0)
+        res["lifetimes"] = len(plan["lifetimes"])
+        if ja != jb:
+            res["verdict"] = "harness_error"
+            diff = []
+            for i, (x, y) in enumerate(zip(va, vb)):
+                for k in sorted(set(x) | set(y)):
+                    if _json.dumps(x.get(k), sort_keys=True, default=str) != _json.dumps(y.get(k), sort_keys=True, default=str):
+                        diff.append(f"lifetime {i} {k}: in-process {str(x.get(k))[:300]} | real {str(y.get(k))[:300]}")
+            res["error"] = "fidelity mismatch between in-process and real lifetimes: " + " ;; ".join(diff[:4])
+            return res
+        V = evaluate(prop, plan, b, ctl)
+        res["violations"] = V.v
+        res["checks"] = V.checks
+        if V.v:
+            res["verdict"] = "violation"
+    except HarnessError as e:
+        res["verdict"] = "harness_error"
+        res["error"] = f"HarnessError: {e}"
+    except BaseException as e:  # noqa: BLE001
+        res["verdict"] = "harness_error"
+        res["error"] = f"{type(e).__name__}: {e}\n{traceback.format_exc()[-2000:]}"
+    finally:
+        try:
+            from .seams import SIM
+
+            SIM.release_all()
+            SIM.reset(None)
+        except Exception:
+            pass
+        shutil.rmtree(root, ignore_errors=True)
+        res["wall_s"] = round(time.time() - t0, 2)
+    return res
